@@ -346,6 +346,33 @@ impl OrderBook {
     }
 }
 
+/// Read-only view of the exchange state for the verification harness in /verif.
+/// Compiled only with the off-by-default `verif` feature; clones, never mutates.
+#[cfg(feature = "verif")]
+#[derive(Clone, Debug)]
+pub struct VerifSnapshot {
+    /// Resting orders, front of the book first.
+    pub book: Vec<Order>,
+    /// Orders submitted since the last tick, in arrival order.
+    pub buffer: Vec<Order>,
+    /// Id the next admitted order will receive.
+    pub next_id: u64,
+    /// Every trade executed so far.
+    pub trade_log: Vec<Trade>,
+}
+
+#[cfg(feature = "verif")]
+impl UistV1 {
+    pub fn verif_snapshot(&self) -> VerifSnapshot {
+        VerifSnapshot {
+            book: self.orderbook.inner.iter().cloned().collect(),
+            buffer: self.order_buffer.clone(),
+            next_id: self.orderbook.last_inserted,
+            trade_log: self.trade_log.clone(),
+        }
+    }
+}
+
 #[cfg(test)]
 mod tests {
     use super::UistV1;
